@@ -1,14 +1,17 @@
 #!/bin/bash
-# seed_try.sh <tag> <Cxx> [<Cyy> ...] : apply /verif/seeded/<tag>/patch.diff to /repo, run the quick checks named,
-# print each check's verdict, and always restore /repo afterwards.
+# seed_try.sh <tag> <Cxx> [<Cyy> ...] : run the quick checks named against a stored seeded change, on scratch copies
+# (/var/tmp/st/repo = the committed state of /repo with the patch applied, /var/tmp/st/verif = a copy of /verif as it is
+# now, checks run there with VERIF_REPO pointing at the patched copy).  Neither /repo nor /verif is touched.
 set -u
 tag=$1; shift
-cd /verif
-if [ -n "$(git -C /repo status --porcelain)" ]; then echo "/repo not clean"; exit 2; fi
-git -C /repo apply /verif/seeded/$tag/patch.diff || exit 2
-trap 'git -C /repo checkout -- . ; git -C /repo status --porcelain' EXIT
+work=/var/tmp/st
+rm -rf $work/repo; mkdir -p $work/repo
+git -C /repo archive HEAD | tar -x -C $work/repo
+rsync -a --delete --exclude .git --exclude replay --exclude build/cases --exclude seeded /verif/ $work/verif/
+mkdir -p $work/verif/replay
+(cd $work/repo && git apply /verif/seeded/$tag/patch.diff) || { echo "patch does not apply"; exit 2; }
 for p in "$@"; do
-  out=$(VERIF_EVIDENCE_DIR=/verif/build/evidence-seeded ./check $p --tier quick 2>&1); rc=$?
+  out=$(cd $work/verif && VERIF_REPO=$work/repo VERIF_EVIDENCE_DIR=$work/verif/build/evidence-seeded ./check $p --tier quick 2>&1); rc=$?
   echo "--- $tag vs $p: exit=$rc"
-  echo "$out" | grep -E "^VIOLATION|^KNOWN-FINDING|^  (oracle|mismatch|proof)" | head -8
+  echo "$out" | grep -E "^VIOLATION|^KNOWN-FINDING|^  (oracle|mismatch|proof)|Traceback" | head -8
 done
